@@ -212,10 +212,11 @@ func init() {
 	})
 	register(&Check{
 		ID:   "C05",
-		Expl: "Decides one clause of the statement — 'the caller's buffer is left unmodified' — for every function on the decode side of pkg/packet/bgp: no store, copy, append-in-place or in-place mutator targets a []byte parameter or memory derived from it (interprocedural taint with writes-param / returns-alias summaries), and no field that retains a sub-slice of the input is written through anywhere in the module. Also decides one cause of crashes exactly: (E5.narrow-guard) no length guard is computed in uint8/uint16 arithmetic that can wrap for some peer-chosen length (upper bounds from constants, widening conversions and dominating comparisons). Also: (E5.loop-progress) every decode loop whose continuation test depends on one loop variable changes that variable on every back edge; (E6.exact-body) ParseBGPMessage hands the body decoder exactly the declared message. (E3.decoded-non-nil) a successfully decoded object has every pointer/interface field assigned that its Serialize dereferences unguarded; (E5.bounds-ratchet) against a committed baseline, no decode function with unchanged accesses has fewer constant-offset accesses provably in bounds than on the reviewed tree. (E5.errors-checked) every error returned to decode-side code by a module function is used.",
+		Expl: "(E6.session-options) the options the receive path parses under — extended-message limit, ADD-PATH modes, AS width — are rewritten on every establishment, so nothing survives from the previous session. Decides one clause of the statement — 'the caller's buffer is left unmodified' — for every function on the decode side of pkg/packet/bgp: no store, copy, append-in-place or in-place mutator targets a []byte parameter or memory derived from it (interprocedural taint with writes-param / returns-alias summaries), and no field that retains a sub-slice of the input is written through anywhere in the module. Also decides one cause of crashes exactly: (E5.narrow-guard) no length guard is computed in uint8/uint16 arithmetic that can wrap for some peer-chosen length (upper bounds from constants, widening conversions and dominating comparisons). Also: (E5.loop-progress) every decode loop whose continuation test depends on one loop variable changes that variable on every back edge; (E6.exact-body) ParseBGPMessage hands the body decoder exactly the declared message. (E3.decoded-non-nil) a successfully decoded object has every pointer/interface field assigned that its Serialize dereferences unguarded; (E5.bounds-ratchet) against a committed baseline, no decode function with unchanged accesses has fewer constant-offset accesses provably in bounds than on the reviewed tree. (E5.errors-checked) every error returned to decode-side code by a module function is used.",
 		Not:  "Crash-freedom, termination, bounded allocation and in-bounds access are NOT decided: a length-guard prover was prototyped and left 181 of 453 slice accesses unproven (value relations between cached lengths and slices), so it is not armed (DESIGN.md §6.1).",
 		Run: func(c *Ctx) {
 			c.ruleRatchets("C05")
+			c.ruleSessionOptionsRefreshed("E6.session-options", map[string]bool{"extendedMessage": true, "familyMap": true, "twoByteAsTrans": true}, 3)
 			c.ruleInputImmutable("E2c.input", []string{"pkg/packet/bgp"}, 120)
 			c.ruleNarrowGuard("E5.narrow-guard", []string{"pkg/packet/bgp"}, 2)
 			c.ruleLoopProgress("E5.loop-progress", []string{"pkg/packet/bgp"}, 30)
